@@ -82,7 +82,10 @@ META = {
 SIGNATURES = {}
 
 # generator knobs of this property: all edge kinds, every oracle feature
-KNOBS = {'p_dup_sel': 0.12, 'p_meta_names': 0.2, 'p_share_lists': 0.2, 'p_combo': 0.2, 'p_calc_then_fail': 0.2}
+KNOBS = {'p_dup_sel': 0.12, 'p_meta_names': 0.2, 'p_share_lists': 0.2, 'p_combo': 0.2, 'p_calc_then_fail': 0.2,
+         # wave 4 (coverage audit #10, #8): wildcard task_dep, multi-action tasks, several teardown callables, group
+         # attributes after sub-tasks, calc results with keys the dispatcher does not consume
+         'p_wild': 0.25, 'p_multi_action': 0.25, 'p_multi_teardown': 0.2, 'p_group_late': 0.25, 'p_calc_extra': 0.3}
 
 
 def plan(ctx, scale=1.0):
